@@ -1252,6 +1252,9 @@ func (e *BE) ptrOf(v ssa.Value, depth int) ptrProv {
 	if depth > 10 {
 		return ptrProv{}
 	}
+	if c := e.capturedLoad(v); c != nil {
+		return e.ptrOf(c, depth+1)
+	}
 	switch x := v.(type) {
 	case *ssa.IndexAddr:
 		return ptrProv{base: x.X, off: e.expand(x.Index), ok: true}
